@@ -84,6 +84,12 @@ def check(run):
         C14.only(R)
     with R.as_rule('C18.replies'):
         C08.echobound(R)
+    R.rule('C18.accept', 'no frame of a burst is refused for a reason the RFCs do not give: every raise of the frame checks sits '
+                         'under an illegal condition (a 65536-byte payload in the 64-bit form is legal); the fragmentation '
+                         'sequence checks apply to data frames only (a Ping between fragments is answered in its cycle)', 5)
+    C01.accept(R, RID='C18.accept')
+    with R.as_rule('C18.accept'):
+        C14.interleave(R)
 
 
 def level(R):
